@@ -2562,15 +2562,19 @@ func (c *compiler) VisitForStmt(s *ast.ForStmt) ast.VisitResult {
 
 	c.cbb = loopUp
 	// we are counting up, so compare less-or-equal
+	c.scp = newScope(c.scp) // the end value is evaluated on every iteration, so its temporaries are freed each time
 	to, toType, _ := c.evaluate(s.To)
 	cond = new_IorF_comp(enum.IPredSLE, enum.FPredOLE, c.cbb.NewLoad(indexTyp.IrType(), indexVar), indexTyp, to, toType)
+	c.scp = c.exitScope(c.scp)
 	c.commentNode(c.cbb, s, "")
 	c.cbb.NewCondBr(cond, forBody, leaveBlock)
 
 	c.cbb = loopDown
 	// we are counting down, so compare greater-or-equal
+	c.scp = newScope(c.scp)
 	to, toType, _ = c.evaluate(s.To)
 	cond = new_IorF_comp(enum.IPredSGE, enum.FPredOGE, c.cbb.NewLoad(indexTyp.IrType(), indexVar), indexTyp, to, toType)
+	c.scp = c.exitScope(c.scp)
 	c.commentNode(c.cbb, s, "")
 	c.cbb.NewCondBr(cond, forBody, leaveBlock)
 
